@@ -91,7 +91,7 @@ pub fn gen_mode(rng: &mut Rng, n: usize, lazy: bool) -> Vec<Case> {
     while out.len() < n && tries < n * 20 {
         tries += 1;
         // lazy stream: one case in six is built from the scoped-variable idioms (inheritance, definitions after reads)
-        let inp = if lazy && rng.chance(16) { crate::streams::c04_input(rng) } else { gen_input(rng, &opts) };
+        let inp = if rng.chance(if lazy { 16 } else { 12 }) { crate::streams::c04_input(rng) } else { gen_input(rng, &opts) };
         if let Some(c) = make_case_mode(&inp, lazy) { out.push(c); }
     }
     out
